@@ -38,6 +38,21 @@ CONFIG = dict(
              'what the items of its own branch produced. run-dir: r roots x fork arity k x arm length a x distance d (r 1..4, k 0,2..5, a 1..3, d '
              '0..3; quick: a quarter), each with and without burndown. run-scale: 1000 commits / 250 forks of arity 2..5 (thorough 10^4), 150 '
              'commits with burndown on disk (thorough 2000); instances of deleted branches are no longer read, twins sampled. '
+             'ROUND 4 (content of values): plt-* = the pl stream in a TIME regime x tick size: commits dated 0 / 1 / -1 / 1989-12-31 up to and beyond '
+             'the first fork and every copy jumping to its own sane date afterwards (zero), all dates before 1970 (pre1970; go-git writes negative '
+             'stamps as 0, the decoded commit objects are given the intended times), around 0, around 631152000 = the suspicious-timestamp constant '
+             'of TicksSinceStart (-1, +0, +1, +-1 day), around 2^31-1 and 2^32-1, after the wall clock (2027, 2037), equal times and steps of +-1 s '
+             'around a tick boundary, times decreasing along the history; tick sizes 1 h / 24 h / 7 d and 5 h, 7 h, 25 h, 30 d, and (field ssize, seconds) '
+             '1 s, 60 s, 1000 s, 3601 s, 5400 s, 86399 s, 86401 s, with start times that are no multiples of the tick. In EVERY pl / plt / pln / run case '
+             'author time differs from committer time (0, +3 d, -400 d, +1 h, -1 s by commit number) and both carry zone offsets (+5:30, -8, +14, -12, '
+             '+5:45, +1); file number -> path and blob number -> content are bijections onto adversarial byte strings: pln draws the files from '
+             'case variants (p1 / P1, d1/p3 / D1/p3 / d1/P3), trailing / leading / inner white space (ASCII, NBSP, U+2028, U+3000), tab, CR, CRLF, '
+             'invalid UTF-8 (0xff, lone 0xc3, overlong, surrogate) next to a REAL U+FFFD, BOM, common prefixes (p, p1, pp1, p10, p100), widths 9/10/11, '
+             '99/100/101, 999/1000/1001; blobs: empty, BOM only, white space only, invalid UTF-8 next to U+FFFD, CR / CRLF, NUL, no final newline; '
+             'entry kind = function of the blob number (regular / executable / symlink: a new version turns a file into a symlink and back). The '
+             'bd* streams use the same kind of name table for the tracked files (f1 / F1 / "f1 " / f\\xff / f\\ufffd / BOM / d/f1 / D/f1 / NUL / ...). '
+             'Pipeline level: four runs in ten live in one of the nine time regimes (x tick 5 h / 25 h / 30 d in a third of them; with the burndown item '
+             'all but the zero regime), kinds run-t<k>-*; nasty blobs and entry kinds in the runs without burndown, nasty paths in all. '
              'Non-trivial = at least one Fork and at least one later mutation (bd: Consume / Hibernate; rb: Insert/Delete/Erase; pl: two Consume; '
              'run: two roots or a commit with two children); distinct = distinct configuration + operation list (+ commit list).',
         exhaustive_note='bdex: 3 copies x 9 changes, all 729 two-commit sequences x 2 configurations (thorough: 4); rbex: 2 sides x 7 operations, all 2744 three-operation sequences; '
